@@ -95,10 +95,22 @@ impl SwiftField for Field11R {
         // Parse optional input sequence number (6!n)
         let input_sequence_number =
             if remaining.len() >= 6 && remaining[..6].chars().all(|c| c.is_ascii_digit()) {
-                Some(remaining[..6].to_string())
+                let sequence = Some(remaining[..6].to_string());
+                remaining = &remaining[6..];
+                sequence
             } else {
                 None
             };
+
+        // Nothing may follow the documented components
+        if !remaining.is_empty() {
+            return Err(ParseError::InvalidFormat {
+                message: format!(
+                    "Field 11R has unexpected content after the date/session/sequence: '{}'",
+                    remaining
+                ),
+            });
+        }
 
         Ok(Field11R {
             message_type,
@@ -242,10 +254,22 @@ impl SwiftField for Field11S {
         // Parse optional input sequence number (6!n)
         let input_sequence_number =
             if remaining.len() >= 6 && remaining[..6].chars().all(|c| c.is_ascii_digit()) {
-                Some(remaining[..6].to_string())
+                let sequence = Some(remaining[..6].to_string());
+                remaining = &remaining[6..];
+                sequence
             } else {
                 None
             };
+
+        // Nothing may follow the documented components
+        if !remaining.is_empty() {
+            return Err(ParseError::InvalidFormat {
+                message: format!(
+                    "Field 11S has unexpected content after the date/session/sequence: '{}'",
+                    remaining
+                ),
+            });
+        }
 
         Ok(Field11S {
             message_type,
@@ -399,6 +423,16 @@ impl SwiftField for Field11 {
             return Err(ParseError::InvalidFormat {
                 message: "Field 11 requires at least 9 characters (3 for MT + 6 for date)"
                     .to_string(),
+            });
+        }
+
+        // The documented format is exactly 3!n6!n: nothing may follow the date
+        if input.len() > 9 {
+            return Err(ParseError::InvalidFormat {
+                message: format!(
+                    "Field 11 has unexpected content after the date: '{}'",
+                    input.get(9..).unwrap_or("")
+                ),
             });
         }
 
